@@ -53,12 +53,28 @@ func vfC08History(r *ref.Rand, final []vfFinal, variant int) []model.Op {
 			}
 		}
 	}
-	for _, i := range order {
+	// variants > 0 also list directories in the middle of the history and may
+	// restart half way (tree dump loaded resp. rebuilt, then written to again):
+	// cached node hashes/counts must never depend on when the tree was last
+	// listed, dumped or loaded
+	midRestart := -1
+	if (variant == 1 || variant == 2) && r.Bool() && len(order) > 4 {
+		midRestart = r.Range(len(order)/4, 3*len(order)/4)
+	}
+	listEvery := r.Pick(0, 7, 40, 150)
+	for n, i := range order {
 		f := final[i]
 		if variant > 0 {
 			noise(f)
 			if r.Intn(20) == 0 {
 				ops = append(ops, model.Op{K: "flush"})
+			}
+			if listEvery > 0 && r.Intn(listEvery) == 0 {
+				d := ref.Digits(ref.KeyHash([]byte(final[order[r.Intn(len(order))]].Key)), 16)
+				ops = append(ops, model.Op{K: "list", Key: ref.PrefixString(d[:r.Pick(0, 0, 1, 2, 3, r.Range(0, 6))])})
+			}
+			if n == midRestart {
+				ops = append(ops, model.Op{K: "flush"}, model.Op{K: "restart", Rm: []string{"", "", "all"}[variant]})
 			}
 		}
 		ops = append(ops, model.Op{K: "set", Key: f.Key, Val: f.Val, Flag: f.Flag, Rev: f.Ver})
